@@ -276,6 +276,16 @@ func check(c *pbt.Ctx, cs Case) {
 		c.Failf("result-aliased", "the bytes returned by the first Do changed during the second Do (result aliases a pooled buffer); first output had %d bytes", len(keep))
 		return
 	}
+	// the same conversion from several goroutines at once on the one converter gives what it gives alone
+	if cs.BufCap%5 == 1 || len(cs.Text)%8 == 3 {
+		c.Step("the same j2t conversion from 8 goroutines at once")
+		c.Class("concurrent-callers")
+		if d := pbt.Concurrently(8, 40, keep, false, func() ([]byte, error) {
+			return cv.Do(ctx, comp.Root, append(make([]byte, 0, len(cs.Text)+16), cs.Text...))
+		}); d != "" {
+			c.Failf("concurrent-differs", "j2t called concurrently on one converter differs from the call alone: %s\ndocument: %s", d, cs.Show)
+		}
+	}
 	if tm.Count(cs.Want) >= 4 {
 		c.NonTrivial()
 	}
